@@ -4,6 +4,7 @@
 repository but never called into it, so every run starts from pristine process state.
 """
 import gc
+import glob
 import hashlib
 import importlib
 import json
@@ -146,11 +147,10 @@ def load_world(prop):
     return mod.World
 
 
-def _execute(prop, seed, batch, replay, want_ops):
+def _execute(prop, seed, batch, replay, want_ops, root, journal=None):
     """Runs in the forked child.  Returns a JSON-able result dict."""
     gc.disable()
     World = load_world(prop)
-    root = tempfile.mkdtemp(prefix="pmsim-", dir=SHM)
     cwd0 = os.getcwd()
     os.chdir(root)
     rng_swarm = random.Random(subseed(seed, "swarm"))
@@ -163,6 +163,11 @@ def _execute(prop, seed, batch, replay, want_ops):
     simio.ACTIVE = io
     ctx.lines.append(f"seed={seed} prop={prop} batch={batch} swarm={json.dumps(swarm, sort_keys=True)}")
     world = World(ctx, swarm)
+    jf = None
+    if journal is not None:
+        jf = simio.real_open(journal, "w")
+        jf.write(json.dumps({"swarm": swarm, "root": root}) + "\n")
+        jf.flush()
     ops = []
     violation = None
     skipped = 0
@@ -177,6 +182,9 @@ def _execute(prop, seed, batch, replay, want_ops):
                     break
             else:
                 op = replay["ops"][step]
+            if jf is not None:
+                jf.write(json.dumps(op) + "\n")
+                jf.flush()
             try:
                 digest = world.apply(op)
                 world.invariants()
@@ -210,7 +218,6 @@ def _execute(prop, seed, batch, replay, want_ops):
         except Exception:
             pass
         os.chdir(cwd0)
-        shutil.rmtree(root, ignore_errors=True)
     res = {
         "seed": seed, "batch": batch, "swarm": swarm, "nops": len(ops), "acked": acked,
         "skipped": skipped, "violation": violation, "fingerprint": ctx.fingerprint(),
@@ -283,5 +290,49 @@ def forked(fn, timeout=120.0):
 
 
 def run_one(prop, seed, batch, replay=None, want_ops=False, timeout=180.0):
-    """Execute one run in a forked child and return its result dict."""
-    return forked(lambda: _execute(prop, seed, batch, replay, want_ops), timeout=timeout)
+    """Execute one run in a forked child and return its result dict.
+
+    A child killed by a signal while executing repository (or peer) code is not a harness
+    error: the run is repeated with an operation journal, and the crash is reported as a
+    violation at the operation that was executing."""
+    root = tempfile.mkdtemp(prefix="pmsim-", dir=SHM)
+    fd, jpath = tempfile.mkstemp(prefix="pmsim-journal-", dir=SHM)
+    os.close(fd)
+    try:
+        try:
+            return forked(lambda: _execute(prop, seed, batch, replay, want_ops, root), timeout=timeout)
+        except HarnessError as e:
+            if not str(e).startswith("child died without a result"):
+                raise
+        shutil.rmtree(root, ignore_errors=True)
+        os.makedirs(root)
+        try:
+            return forked(lambda: _execute(prop, seed, batch, replay, want_ops, root, journal=jpath), timeout=timeout)
+        except HarnessError as e2:
+            if not str(e2).startswith("child died without a result"):
+                raise
+            status = str(e2)
+        with simio.real_open(jpath) as f:
+            lines = f.read().splitlines()
+    finally:
+        for d in glob.glob(root + "*"):
+            shutil.rmtree(d, ignore_errors=True)
+        try:
+            os.unlink(jpath)
+        except OSError:
+            pass
+    if not lines:
+        raise HarnessError("run child crashed before the world was built: " + status)
+    head = json.loads(lines[0])
+    ops = [json.loads(ln) for ln in lines[1:]]
+    last = ops[-1]["op"] if ops else "none"
+    sig = f"{prop}/process-crashed:{last}"
+    return {
+        "seed": seed, "batch": batch, "swarm": head["swarm"], "nops": len(ops), "acked": max(0, len(ops) - 1),
+        "skipped": 0, "ops": ops,
+        "violation": {"signature": sig, "detail": f"the interpreter died inside operation {len(ops) - 1} ({last}): {status}", "step": len(ops) - 1},
+        "fingerprint": h64("crash", json.dumps(ops, sort_keys=True)),
+        "events": 0, "fin_events": 0, "io_kinds": {}, "probes": {"process_crashed": 1}, "faults_fired": {},
+        "faults_configured": 0, "ops_executed": {}, "states": [], "isig": h64(json.dumps(ops, sort_keys=True)),
+        "nontrivial": False, "log": [f"crash in {last}: {status}"],
+    }
